@@ -14,6 +14,7 @@ MUTANTS = [
     ('outer point of end 1 on the inner side', [('mininec.Geobj.compute_connections', "prev = self.p1 - oinc", "prev = self.p1 + oinc")], ['neighbour-segment']),
     ('outer point of end 2 ignores the direction', [('mininec.Geobj.compute_connections', "oinc = oseg.dirvec * oseg.seg_len * sgn [1]", "oinc = oseg.dirvec * oseg.seg_len")], ['neighbour-segment']),
     ('junction pulse sign ignores direction', [('mininec.Geobj.compute_connections', "sgn   = [1, np.sign (self.idx_2)]", "sgn   = [1, 1]")], ['add-conn', 'pulse-signs']),
+    ('vector self term with the length of the observing pulse', [('mininec.Mininec.vector_potential', "            wl = self.pulses.matrix_seg_len [1].T [widx].T [co2]", "            wl = self.pulses.matrix_seg_len [0].T [widx].T [co2]")], ['self-term']),
 ]
 REFACTORS = [
     ('neighbour segment by conditional expression', [('mininec.Geobj.compute_connections', "            if sgn [1] < 0:\n                oseg = other.segments [-1]\n            else:\n                oseg = other.segments [0]", "            oseg = other.segments [-1] if sgn [1] < 0 else other.segments [0]")]),
